@@ -6,6 +6,8 @@ mod dumpcheck;
 mod extra;
 mod forge;
 mod judge;
+mod keyextra;
+mod keylayout;
 mod session;
 
 use beh::*;
@@ -126,6 +128,32 @@ fn main() {
             install_quiet_panic_hook();
             let n: usize = args.get(2).and_then(|s| s.parse().ok()).unwrap_or(20);
             for r in columns::encoding(n) {
+                println!("{}", r);
+            }
+        }
+        Some("keylayout") => {
+            install_quiet_panic_hook();
+            let stdin = std::io::stdin();
+            let reqs: Vec<serde_json::Value> = stdin.lock().lines().map(|l| l.unwrap()).filter(|l| !l.trim().is_empty())
+                .map(|l| serde_json::from_str(&l).expect("bad layout")).collect();
+            #[cfg(feature = "parallel")]
+            let res: Vec<serde_json::Value> = {
+                use rayon::prelude::*;
+                reqs.par_iter().map(|v| match guarded_plain(|| keylayout::check_layout(v)) {
+                    Out::Ok(x) => x,
+                    o => serde_json::json!({"ok": false, "why": format!("aborted: {}", o.detail())}),
+                }).collect()
+            };
+            #[cfg(not(feature = "parallel"))]
+            let res: Vec<serde_json::Value> = reqs.iter().map(keylayout::check_layout).collect();
+            for r in res {
+                println!("{}", r);
+            }
+        }
+        Some("c08extra") => {
+            install_quiet_panic_hook();
+            let thorough = args.get(2).map(|s| s == "thorough").unwrap_or(false);
+            for r in keyextra::c08(thorough) {
                 println!("{}", r);
             }
         }
